@@ -5,6 +5,9 @@
    Inputs the real code rejects (and that the hypotheses exclude): duplicate / overlapping /
    out-of-range qubits, states of the wrong length; more than 52 einsum characters (n + k > 52)
    raise NotImplementedError in the real code and are not distinguished by the model.
+   A gate matrix of the wrong size is rejected by the real reshape; the model reads missing entries
+   as 0 through Base/Mat.mget on both sides, so the index theorems need no shape hypothesis
+   (this says nothing about the real code on such inputs); the unitary theorems state the shape.
    Satisfiability of the hypotheses: C01/Examples.v. *)
 From Coq Require Import List Bool Arith Lia.
 From Coq Require Import ZArith.
